@@ -167,6 +167,7 @@ def _history(ctx, E):
             readers = [o for o in meths if any(r == p or r.startswith(p.replace('[*]', '')) for r in reads[o])]
             ctx.violated("R3-call-history", c, f"{m}() modifies analyzer state {p}, which {readers or 'later calls'} read: the result of an analysis depends on which calls preceded it", where)
         # in-place effects on analyzer state (through views / callees)
+        if m == meths[0]: _record_rebound_later(ctx, repo, meths)
         A = Alias(fn, resolve=E.resolver(key), shared_paths=("self.data", "self.x1", "self.x2", "self._plan_cache", "self.config")).run()
         bad = 0
         for sk in A.sinks:
@@ -178,6 +179,33 @@ def _history(ctx, E):
             ctx.violated("R3-call-history", f"{key}[{norm_stmt(sk.node)[:60]}]", f"in-place {sk.kind} on {sk.target} ({sk.detail}) modifies {', '.join(hits)}, which later analyses on the same analyzer read",
                          f"speckit/analysis.py:{getattr(sk.node, 'lineno', 0)}")
         ctx.holds("R3-call-history", key, f"{len(A.sinks)} in-place sites examined, {bad} touch analyzer state", repo.where(key, fn))
+
+
+def _record_rebound_later(ctx, repo, meths):
+    """the analysed record (self.data / x1 / x2 / fs / nx / iscsd) is bound by the constructor only: a helper method reached from plan() / compute() /
+    compute_single_bin() that re-binds it (run-once sanitising, lazy conversion) makes an entry point that does not pass through that helper see
+    another record than one that does - the result depends on which calls preceded it."""
+    RECORD = ("self.data", "self.x1", "self.x2", "self.fs", "self.nx", "self.iscsd")
+    seen = set(meths); work = list(meths); via = {}
+    while work:
+        m = work.pop()
+        if not repo.has(f"{AN}.{m}"): continue
+        for c in ast.walk(repo.get(f"{AN}.{m}")):
+            if isinstance(c, ast.Call) and isinstance(c.func, ast.Attribute) and isinstance(c.func.value, ast.Name) and c.func.value.id == "self" and repo.has(f"{AN}.{c.func.attr}"):
+                if c.func.attr not in seen and c.func.attr != "__init__":
+                    seen.add(c.func.attr); work.append(c.func.attr); via[c.func.attr] = m
+    n = 0
+    for m in sorted(seen):
+        key = f"{AN}.{m}"
+        if not repo.has(key): continue
+        fn = repo.get(key)
+        for p, node in _attr_writes(fn):
+            if p in RECORD:
+                n += 1
+                ctx.violated("R3-call-history", f"{key}[{norm_stmt(node)[:60]}]", f"{m}() (reached from {via.get(m, m)}()) re-binds the analysed record {p} after construction: entry points that do not "
+                             "pass through it (e.g. compute_single_bin before the first plan()) analyse a different record than later calls", f"speckit/analysis.py:{node.lineno}")
+    if not n:
+        ctx.holds("R3-call-history", f"{AN}[record bound once]", f"{len(seen)} methods reachable from the entry points: none re-binds self.data / x1 / x2 / fs / nx / iscsd", repo.where(AN + ".plan", repo.get(AN + ".plan")))
 
 
 def _chunk_independence(ctx):
